@@ -166,11 +166,40 @@ func (r *Run) timingLedger(evs []verif.Event) (checked int) {
 	}
 	// boundedly late: how long after its deadline did the scan pick a message up (scan interval 10 ms)
 	var worst int64
+	worstBy := map[string]int64{}  // per channel instance: worst lateness of an in-flight timeout ...
+	worstDef := map[string]int64{} // ... and of a deferred message
 	for _, e := range evs {
 		if e.Ev == "ScanIF" || e.Ev == "ScanDef" {
-			if late := hlib.KVInt(e, "t") - hlib.KVInt(e, "pri"); late > worst {
+			late := hlib.KVInt(e, "t") - hlib.KVInt(e, "pri")
+			if late > worst {
 				worst = late
 			}
+			m := worstBy
+			if e.Ev == "ScanDef" {
+				m = worstDef
+			}
+			if c := hlib.KVStr(e, "c"); late > m[c] {
+				m[c] = late
+			}
+		}
+	}
+	// the two queues of a channel are served by the same scan tick: whatever the machine load does to the ticks it
+	// does to both. Deferred messages that are an order of magnitude later than the in-flight timeouts of the SAME
+	// channel in the SAME run were not held up by the machine (and the other way round)
+	for c, d := range worstDef {
+		f, ok := worstBy[c]
+		if !ok {
+			continue
+		}
+		lo, hi, what := f, d, "deferred messages of %s were picked up as late as %s after their time while its in-flight timeouts in the same run were never more than %s late"
+		if f > d {
+			lo, hi, what = d, f, "in-flight timeouts of %s were picked up as late as %s after their deadline while its deferred messages in the same run were never more than %s late"
+		}
+		if lo < int64(50*time.Millisecond) {
+			lo = int64(50 * time.Millisecond)
+		}
+		if hi > int64(500*time.Millisecond) && hi > 8*lo {
+			r.failf("[C04] "+what+" (both queues are served by the same scan tick)", c, time.Duration(hi), time.Duration(lo))
 		}
 	}
 	// "soon after": with a 10 ms scan interval a message is normally picked up within a few tens of ms. The bound
